@@ -38,6 +38,12 @@ def run(rep, tier):
     tie_break(rep, F)
     graham_comparator(rep, F)
     farthest_key(rep, F)
+    # "as decided by exact orientation": the two kernel bodies the hull code dispatches to (shared with C03)
+    from . import c03
+    c03.kernel_bodies(rep, F, rule="R8.7")
+    c03.integer_kernel(rep, F, rule="R8.7")
+    from . import c05
+    c05.least_index_table(rep, F, rule="R8.8")      # Graham's pivot
 
 
 def side_tests(rep, F):
